@@ -157,16 +157,31 @@ func C16(e *core.Env) int {
 	layouts := []string{"default", "samepkg", "sharedfile", "twofiles", "variables", "taggedinput"}
 	pairs := []tagPair{{"", ""}, {"goverter,extra", "!goverter"}, {"extra,goverter", "!goverter"}, {"foo", "!foo"}, {"a,b", "!a"}, {"a,b", "!b"}, {"goverter", "EMPTY"}, {"gen", "EMPTY"}, {"NONE", "!goverter"}, {"NONE", "!foo"}}
 	priors := []string{"absent", "current", "older", "longer", "truncated", "broken"}
+	// the documented way to extend goverter is a main package that calls cli.Run with RunOpts: such a binary must
+	// behave like the stock one
+	customBin, cerr := e.BuildHelper("customcli")
+	if cerr != nil {
+		rep.Inconclusive = append(rep.Inconclusive, "custom CLI: "+cerr.Error())
+		return rep.Finish()
+	}
 	type hist struct {
 		layout string
 		pair   tagPair
 		prior  string
+		custom bool
 	}
 	var hs []hist
 	for _, l := range layouts {
 		for _, p := range pairs {
 			for _, pr := range priors {
-				hs = append(hs, hist{l, p, pr})
+				hs = append(hs, hist{l, p, pr, false})
+			}
+		}
+	}
+	for _, l := range []string{"default", "samepkg", "variables"} {
+		for _, p := range []tagPair{{"", ""}, {"foo", "!foo"}} {
+			for _, pr := range []string{"current", "older", "broken"} {
+				hs = append(hs, hist{l, p, pr, true})
 			}
 		}
 	}
@@ -181,6 +196,10 @@ func C16(e *core.Env) int {
 		h := hs[i]
 		res := &results[i]
 		name := fmt.Sprintf("h%03d", i)
+		bin := bin
+		if h.custom {
+			bin = customBin
+		}
 		constraint := "!goverter"
 		var args []string
 		switch {
@@ -303,7 +322,7 @@ func C16(e *core.Env) int {
 				bad("differs_from_clean", fmt.Sprintf("regeneration over %s output differs from clean-tree generation (%s)", h.prior, filepath.Base(p)), "got:\n"+head(got, 600)+"\nwant:\n"+head(want, 600), dir)
 			}
 		}
-		res.nt = h.prior + "|" + h.layout + "|" + h.pair.tags + "|" + constraint
+		res.nt = h.prior + "|" + h.layout + "|" + h.pair.tags + "|" + constraint + fmt.Sprintf("|customcli=%v", h.custom)
 		if i%11 == 0 {
 			res.samp = map[string]any{"layout": h.layout, "build_tags": h.pair.tags, "constraint": constraint, "prior": h.prior, "args": args, "outputs": outputs, "final_exit": final.Exit}
 		}
